@@ -285,3 +285,20 @@ def ranked(ks, extras=()):
             placed.insert(lo, (rank, e))
         out.append(K(e, rank))
     return kk, out
+
+
+class PV(K):
+    """a VALUE object that is only partially ordered: equality is decided by the solver, but no two values are ever
+    less or greater than one another (like frozensets that are not subsets of each other, or NaN)"""
+
+    def __lt__(self, o):
+        return False if isinstance(o, K) else NotImplemented
+
+    def __gt__(self, o):
+        return False if isinstance(o, K) else NotImplemented
+
+    def __le__(self, o):
+        return K.__eq__(self, o)
+
+    def __ge__(self, o):
+        return K.__eq__(self, o)
